@@ -129,11 +129,12 @@ func (b *sbuild) build(n *pnode, owner string) stream.Stream[int] {
 	case "first":
 		return stream.First(kid(0, "First"), n.n)
 	case "while":
+		pred := whilePred(n)
 		return stream.While(kid(0, "While"), func(ctx context.Context, x int) (bool, error) {
 			if err := b.cb(); err != nil {
 				return false, err
 			}
-			return predFn(n.fn, x), nil
+			return pred(x), nil
 		})
 	case "compact":
 		return stream.Compact(kid(0, "Compact"))
@@ -412,7 +413,7 @@ func (b *ibuild) build(n *pnode) iterator.Iterator[int] {
 	case "first":
 		return iterator.First(kid(0), n.n)
 	case "while":
-		return iterator.While(kid(0), func(x int) bool { return predFn(n.fn, x) })
+		return iterator.While(kid(0), whilePred(n))
 	case "compact":
 		return iterator.Compact(kid(0))
 	case "compactfunc":
